@@ -210,14 +210,20 @@ def oracle(sc, trainer, switches=(True, True, True), steps=3, dask=False, floors
             return {"sig": "gmm-fit-raises", "what": repr(r)}
         return check_gmm(g, x, f"k-means-initialised GMM on '{sc['kind']}' data, switches {switches}", gen.EPS)
     ubm = gen.mk_gmm(np.full(K, 1 / K), cent, np.ones((K, D)))
-    if trainer == "ml":
+    if trainer == "ml" and sc.get("means_only_floor") is not None:
+        # floors first (data in large units: a floor above 1), then the means, the variances never: `fit` supplies unit variances,
+        # which are below those floors
+        g = GMMMachine(K, max_fitting_steps=steps, convergence_threshold=None, update_means=um, update_variances=uv, update_weights=uw)
+        g.variance_thresholds = float(sc["means_only_floor"]) if D == 1 else np.array([float(sc["means_only_floor"])] + [0.5] * (D - 1))
+        g.means = np.array(cent, dtype=float)
+    elif trainer == "ml":
         g = gen.mk_gmm(np.full(K, 1 / K), cent, np.ones((K, D)), max_fitting_steps=steps, convergence_threshold=None, update_means=um, update_variances=uv, update_weights=uw)
     else:
         extra = {}
         if alpha_arr is not None:  # fixed adaptation ratios, one per Gaussian (unequal), instead of the relevance factor
             extra = dict(map_relevance_factor=None, map_alpha=np.random.default_rng(int(alpha_arr)).uniform(0.05, 0.95, K))
         g = GMMMachine(K, trainer="map", ubm=ubm, max_fitting_steps=steps, convergence_threshold=None, update_means=um, update_variances=uv, update_weights=uw, **extra)
-    if floors_late is not None:
+    if floors_late is not None and sc.get("means_only_floor") is None:
         # the floors are raised on a machine that already has its variances: above some entries, below others
         rr = np.random.default_rng(int(floors_late))
         v0 = np.asarray(g.variances, float)
@@ -251,12 +257,14 @@ def search(ctx):
         ctx.count(f"search:{trainer}:{sc['kind']}")
         ctx.case(["s", trainer, sc["kind"], core.tolist(sc["x"]), sw, dask], nontrivial=True)
         steps = 1 + int(ctx.rng.integers(0, 3))
+        if trainer == "ml" and ctx.rng.random() < 0.2:
+            sc["means_only_floor"] = float(ctx.rng.choice([4.0, 25.0, 0.5]))
         late = int(ctx.rng.integers(0, 10**6)) if trainer in ("ml", "map") and ctx.rng.random() < 0.4 else None
         alpha_arr = int(ctx.rng.integers(0, 10**6)) if trainer == "map" and ctx.rng.random() < 0.4 else None
         f = oracle(sc, trainer, sw, steps=steps, dask=dask, floors_late=late, alpha_arr=alpha_arr)
         if f and f["sig"] not in seen:
             seen.add(f["sig"])
-            f["input"] = {**{k: sc[k] for k in ("kind", "K", "D", "x", "x_dtype", "cent", "sizes") if k in sc}, "trainer": trainer, "switches": list(sw), "steps": steps, "dask": dask, "floors_late": late, "alpha_arr": alpha_arr}
+            f["input"] = {**{k: sc[k] for k in ("kind", "K", "D", "x", "x_dtype", "cent", "sizes", "means_only_floor") if k in sc}, "trainer": trainer, "switches": list(sw), "steps": steps, "dask": dask, "floors_late": late, "alpha_arr": alpha_arr}
             fails.append(f)
     for i in range(ctx.budget(6, 60)):
         f = ivector_oracle(ctx, i)
